@@ -79,12 +79,22 @@ RESIDUES = [
     (3, "", "CL", 202, "ion", None, [("CL", "Cl", "-")]),
     (3, "", "CA", 203, "ion", None, [("CA", "Ca", "-")]),
     (3, "", "NA", 201, "ion", None, [("NA", "Na", "-")]),
+    # names that are spelled like operator words in upper / mixed case are ordinary literals:
+    # a neon atom (residue NE, atom NE, element Ne) and an arginine with its N-epsilon (NE) and CZ
+    (3, "", "NE", 204, "ion", None, [("NE", "Ne", "-")]),
+    (4, "SC", "ARG", 5, "protein", "R", _BB + [("CB", "C", "s"), ("NE", "N", "s"), ("CZ", "C", "s")]),
 ]
 # standard atomic weights to 3-4 figures (CRC handbook); thresholds used by the generator stay
 # >= 0.4 away from every one of them, so the 4th figure never matters
-MASS = {"H": 1.008, "C": 12.011, "N": 14.007, "O": 15.999, "S": 32.06, "Na": 22.990, "Cl": 35.45, "Ca": 40.078}
+MASS = {"H": 1.008, "C": 12.011, "N": 14.007, "O": 15.999, "S": 32.06, "Na": 22.990, "Cl": 35.45, "Ca": 40.078,
+        "Ne": 20.180, "VS": 0.0}          # VS: mdtraj's virtual site pseudo-element (history layer only)
 _SIDE_BONDS = {"ALA": [("CA", "CB")], "GLY": [], "SER": [("CA", "CB"), ("CB", "OG")],
-               "CYS": [("CA", "CB"), ("CB", "SG")], "LYS": [("CA", "CB"), ("CB", "NZ")]}
+               "CYS": [("CA", "CB"), ("CB", "SG")], "LYS": [("CA", "CB"), ("CB", "NZ")],
+               "ARG": [("CA", "CB"), ("CB", "NE"), ("NE", "CZ")]}
+# name-based truth for topologies that are not the fixture (history layer): residue name -> code
+PROTEIN_CODE = {"ALA": "A", "GLY": "G", "SER": "S", "CYS": "C", "LYS": "K", "ARG": "R"}
+WATER_NAMES = {"HOH"}
+BACKBONE_NAMES = {"N", "CA", "C", "O"}      # no atom of the fixture or of an edit is called H or HA
 
 
 def atom_table():
@@ -380,7 +390,8 @@ SYM_LOOSE = {"<", "<=", "==", ">", ">="}          # every symbolic comparison ex
 WORD_CMP = {"eq", "ne", "lt", "le", "gt", "ge"}
 HAZARD_ORDER = ["paren-depth>=3", "regex-under-connective", "not-before-infix-comparison",
                 "&&-next-to-symbolic-comparison", "and-next-to-word-comparison",
-                "regex-on-valueless-attribute"]
+                "regex-on-valueless-attribute", "operator-like-literal"]
+_OPWORDS = {"and", "or", "not", "to", "eq", "ne", "lt", "le", "gt", "ge"}
 
 
 def paren_depth(s):
@@ -453,6 +464,11 @@ def hazards(tree, s, atoms):
         elif k == "regex":
             if any(a[ALIAS[n[1]]] is None for a in atoms):
                 hz.add("regex-on-valueless-attribute")
+        if k in ("cmp", "rcmp", "impl", "list", "range"):
+            for part in n[1:]:
+                for lit in (part if isinstance(part, tuple) and part and isinstance(part[0], tuple) else (part,)):
+                    if isinstance(lit, tuple) and len(lit) == 3 and lit[0] == "str" and lit[1].lower() in _OPWORDS:
+                        hz.add("operator-like-literal")
 
     walk(tree)
     return hz
@@ -463,3 +479,64 @@ def first_hazard(hz):
         if h in hz:
             return h
     return "none"
+
+
+# ------------------------------------------------------------------------------------------------
+# history layer: atom table of an arbitrary (edited) topology, and a from-scratch copy of it
+# ------------------------------------------------------------------------------------------------
+def table_from_topology(top):
+    """Walk chains -> residues -> atoms -> bonds of an md.Topology (trusted input, attribute reads
+    only) and derive the truth value of every keyword from names with the hand-written tables.
+    -> (live, alt, stale, live_bonds): `live` counts for n_bonds only bonds whose two atoms are both still in
+    the topology, `alt` also counts bonds to deleted atoms (the documentation does not say which);
+    `stale` lists atoms whose .index attribute differs from their position in the walk."""
+    live, objs, stale = [], [], []
+    resid = 0
+    for ci, ch in enumerate(top.chains):
+        for res in ch.residues:
+            prot = res.name in PROTEIN_CODE
+            for at in res.atoms:
+                pos = len(live)
+                if at.index != pos:
+                    stale.append((pos, at.index, at.name))
+                sym = at.element.symbol
+                live.append({
+                    "index": pos, "name": at.name, "type": sym, "mass": MASS[sym], "n_bonds": 0,
+                    "residue": res.resSeq, "resid": resid, "resname": res.name,
+                    "rescode": PROTEIN_CODE.get(res.name), "chainid": ci, "segment_id": res.segment_id,
+                    "all": True, "none": False, "protein": prot, "water": res.name in WATER_NAMES,
+                    "backbone": prot and at.name in BACKBONE_NAMES,
+                    "sidechain": prot and at.name not in BACKBONE_NAMES,
+                })
+                objs.append(at)
+            resid += 1
+    pos_of = {id(a): i for i, a in enumerate(objs)}
+    alt = [dict(a) for a in live]
+    live_bonds = []
+    for b in top.bonds:
+        i, j = pos_of.get(id(b[0])), pos_of.get(id(b[1]))
+        for x in (i, j):
+            if x is not None:
+                alt[x]["n_bonds"] += 1
+        if i is not None and j is not None:
+            live[i]["n_bonds"] += 1
+            live[j]["n_bonds"] += 1
+            live_bonds.append((i, j))
+    return live, alt, stale, live_bonds
+
+
+def build_copy(top):
+    """A new md.Topology with the same chains/residues/atoms/live bonds, built only with add_* calls."""
+    import mdtraj as md
+    new = md.Topology()
+    handles = []
+    for ch in top.chains:
+        c = new.add_chain()
+        for res in ch.residues:
+            r = new.add_residue(res.name, c, resSeq=res.resSeq, segment_id=res.segment_id)
+            for at in res.atoms:
+                handles.append(new.add_atom(at.name, md.element.get_by_symbol(at.element.symbol), r))
+    _live, _alt, _stale, live_bonds = table_from_topology(top)
+    for i, j in live_bonds:
+        new.add_bond(handles[i], handles[j])
+    return new
